@@ -81,6 +81,16 @@ fn main() {
     let (c, l) = (MsgMock::sl.each_call(matching!([1, ..], _)).panics("custom message"), line!());
     let u = Unimock::new(c).no_verify_in_drop();
     emit("exp", "ExplicitPanic", "sl", &["[1, 5]", "[]"], "debug", "([1, ..], _)", l, 0, "custom message", &caught(|| u.sl(&[1, 5], vec![])));
+    // ---- a matching! invocation spread over several lines is located by the line of the invocation itself
+    let l = line!() + 2;
+    let c = MsgMock::a2.each_call(
+        matching!(
+            7,
+            "multi" | "line"
+        ))
+        .panics("ml");
+    let u = Unimock::new(c).no_verify_in_drop();
+    emit("expml", "ExplicitPanic", "a2", &["7", "\"line\""], "debug", "(7, \"multi\" | \"line\")", l, 0, "ml", &caught(|| u.a2(7, "line")));
     // ---- CannotUnmock / NoDefaultImpl
     let u = Unimock::new((MsgMock::a1.each_call(matching!(_)).applies_unmocked(), MsgMock::a0.each_call(matching!()).applies_default_impl())).no_verify_in_drop();
     emit("cu", "CannotUnmock", "a1", &[], "-", "", 0, 0, "", &caught(|| u.a1(1)));
@@ -113,7 +123,8 @@ fn main() {
         let induced = caught(|| f(&u));
         let verdict = caught(move || u.verify());
         let i1 = induced.lines().next().unwrap_or("").to_string();
-        let ok = verdict != "<no panic>" && !i1.is_empty() && verdict.contains(&i1);
+        // the verification message contains the induced error's whole text (every line of it, diagnostics included)
+        let ok = verdict != "<no panic>" && !i1.is_empty() && verdict.contains(&induced);
         println!("post\t{id}\t{}\t{}\t{}", if ok { "remembered" } else { "forgotten" }, i1, verdict.lines().next().unwrap_or(""));
     };
     post("p-long", Unimock::new(()), &|u| { u.a2(7, &long); });
@@ -122,5 +133,7 @@ fn main() {
     post("p-multiline-panic-msg", Unimock::new(MsgMock::a1.each_call(matching!(_)).panics("first\nsecond")), &|u| { u.a1(1); });
     post("p-nomatch", Unimock::new(MsgMock::a2.each_call(matching!(9, _)).returns(1u32).at_least_times(0)), &|u| { u.a2(1, "\u{1F600}"); });
     post("p-cannot-unmock", Unimock::new(MsgMock::a1.each_call(matching!(_)).applies_unmocked()), &|u| { u.a1(1); });
+    post("p-order-mismatch", Unimock::new((MsgMock::a2.next_call(matching!(2, "b")).returns(2u32), MsgMock::a1.next_call(matching!(1)).returns(1u32))), &|u| { u.a2(3, "c"); });
+    post("p-nomatch-2pats", Unimock::new((MsgMock::a2.each_call(matching!(9, _)).returns(1u32).at_least_times(0), MsgMock::a2.each_call(matching!(_, "q")).returns(1u32).at_least_times(0))), &|u| { u.a2(1, "z"); });
     post("p-order", Unimock::new((MsgMock::a1.next_call(matching!(1)).returns(1u32), MsgMock::a2.next_call(matching!(2, "b")).returns(2u32))), &|u| { u.a2(2, "b"); });
 }
